@@ -89,6 +89,8 @@ type Sim struct {
 	rpcSrv        *rpc.Server
 	GuardianKeys  []common.Address
 	FinalizedMode bool // the watcher under test polls the finalized head (set by Start)
+	AfterReceipt  func(s *Sim, tx common.Hash) // hook: called (lock held) right after a receipt answer was computed
+	ReobserveWindow bool                       // set by a script while it waits for a re-observation it has requested
 	slowMu        sync.Mutex
 	slow          map[string][]time.Duration
 }
@@ -447,7 +449,9 @@ func (a *ethAPI) GetTransactionReceipt(ctx context.Context, hash common.Hash) (m
 	s.ReceiptServed[hash] = append(s.ReceiptServed[hash], ReceiptAnswer{LogN: len(s.Log), Found: true, BlockHash: tx.Block.Hash, Status: tx.Status})
 	s.Log[len(s.Log)-1].Detail += fmt.Sprintf(" -> block %d/%d status %d", tx.Block.Number, tx.Block.Variant, tx.Status)
 	m := toMap(r)
-	// types.Receipt's JSON omits nothing we need, but make the log objects complete
+	if s.AfterReceipt != nil {
+		s.AfterReceipt(s, hash) // the chain moves on right after this answer was computed
+	}
 	return m, nil
 }
 
